@@ -40,6 +40,7 @@ Fixpoint is_zero (v : value) : bool :=
   | VInt z => z =? 0
   | VBool b => negb b
   | VStr s => match s with [] => true | _ => false end
+  | VEmptyBytes => false
   | VNil => true
   | VPtr _ => false
   | VList l => match l with [] => true | _ => false end
@@ -57,6 +58,12 @@ Definition retag (i : item) (tag : Z) : item :=
   | IBytes _ s => IBytes tag s | IDate _ v => IDate tag v | IIntv _ v => IIntv tag v
   | IMask _ r v => IMask tag r v
   end.
+
+(** a decoded byte string: Go yields a non-nil slice, of length 0 for an empty element *)
+Definition vbytes (s : list Z) : value := match s with [] => VEmptyBytes | _ => VStr s end.
+(** the bytes held by a []byte value (nil and empty alike) *)
+Definition bytes_of (v : value) : option (list Z) :=
+  match v with VStr s => Some s | VEmptyBytes => Some [] | _ => None end.
 
 Definition tree_of (v : value) : option item := match v with VTree i => Some i | _ => None end.
 Fixpoint trees_of (l : list value) : option (list item) :=
@@ -83,6 +90,7 @@ Definition enc_scalar (k : kind) (tag : Z) (v : value) : res (list item) :=
   | KBool, VBool b => Ok [IBool tag b]
   | KString, VStr s => Ok [IText tag s]
   | KBytes, VStr s => Ok [IBytes tag s]
+  | KBytes, VEmptyBytes => Ok [IBytes tag []]
   | KTime, VInt z => Ok [IDate tag z]
   | KDuration, VInt z => Ok [IIntv tag z]
   | KBigInt, VInt z => Ok [IBig tag z]
@@ -254,18 +262,22 @@ Section Sem.
       if String.eqb n "kmip.RequestBatchItem" then
         (* RequestBatchItem.TagEncodeTTLV *)
         match fs with
-        | [VInt op; VStr id; payload; ext] =>
+        | [VInt op; idv; payload; ext] =>
+          match bytes_of idv with None => Panic | Some id =>
           do p <- enc_ty f st (fty d 2) (ftag d 2) payload ;;
           do e <- enc_ty f (snd p) (fty d 3) (ftag d 3) ext ;;
           Ok ([IStruct tag ([IEnum (ftag d 0) (ftag d 0) op] ++
                             (match id with [] => [] | _ => [IBytes (ftag d 1) id] end) ++
                             fst p ++ fst e)], snd e)
+          end
         | _ => Panic
         end
       else if String.eqb n "kmip.ResponseBatchItem" then
         (* ResponseBatchItem.TagEncodeTTLV: always under TagBatchItem *)
         match fs with
-        | [VInt op; VStr id; VInt status; VInt reason; VStr msg; VStr acv; payload; ext] =>
+        | [VInt op; idv; VInt status; VInt reason; VStr msg; acvv; payload; ext] =>
+          match bytes_of idv, bytes_of acvv with
+          | Some id, Some acv =>
           do p <- enc_ty f st (fty d 6) (ftag d 6) payload ;;
           do e <- enc_ty f (snd p) (fty d 7) (ftag d 7) ext ;;
           Ok ([IStruct TAG_BATCH_ITEM
@@ -276,6 +288,8 @@ Section Sem.
                   (match msg with [] => [] | _ => [IText (ftag d 4) msg] end) ++
                   (match acv with [] => [] | _ => [IBytes (ftag d 5) acv] end) ++
                   fst p ++ fst e)], snd e)
+          | _, _ => Panic
+          end
         | _ => Panic
         end
       else if String.eqb n "kmip.UnknownPayload" then
@@ -303,7 +317,7 @@ Section Sem.
     | KUint32 | KUint64 => do r <- c_long F tag c ;; if fst r <? 0 then Err else Ok (VInt (fst r), snd r)
     | KBool => do r <- c_bool F tag c ;; Ok (VBool (fst r), snd r)
     | KString => do r <- c_text F tag c ;; Ok (VStr (fst r), snd r)
-    | KBytes => do r <- c_bytes F tag c ;; Ok (VStr (fst r), snd r)
+    | KBytes => do r <- c_bytes F tag c ;; Ok (vbytes (fst r), snd r)
     | KTime => do r <- c_date F tag c ;; Ok (VInt (fst r), snd r)
     | KDuration => do r <- c_intv F tag c ;; Ok (VInt (fst r), snd r)
     | KBigInt => do r <- c_big F tag c ;; Ok (VInt (fst r), snd r)
@@ -410,7 +424,7 @@ Section Sem.
     Definition dec_key_value (st : vstate) (fmtv : Z) (tag : Z) (c2 : cur R) : dres :=
       if c_type c2 =? T_BYTES then
         do r <- c_bytes F tag c2 ;;
-        Ok (VPtr (VStruct "kmip.KeyValue" [VPtr (VStr (fst r)); VNil]), snd r, st)
+        Ok (VPtr (VStruct "kmip.KeyValue" [VPtr (vbytes (fst r)); VNil]), snd r, st)
       else if c_type c2 =? T_STRUCT then
         match find_tdef S "kmip.PlainKeyValue", find_tdef S "kmip.KeyMaterial" with
         | Some pkv, Some km =>
